@@ -328,6 +328,7 @@ restart:
                 // There is data even if there is an error
                 // So use this data and log a warning
                 htp_log(d->tx->connp, HTP_LOG_MARK, HTP_LOG_WARNING, 0, "GZip decompressor: inflate failed with %d", rc);
+                HTP_VERIF_TRACE(d->tx->connp, 10, (intptr_t) d->tx, (intptr_t) drec);
                 rc = Z_STREAM_END;
             }
         }
